@@ -206,7 +206,22 @@ def seq_arg(c, v):
         return list(v)
     if f == 'array':
         return np.array(v)
+    if f in INT_ARGFORMS:
+        # an ndarray of a small-width / unsigned integer dtype (a shape read from a file header, ...)
+        lo, hi = np.iinfo(f).min, np.iinfo(f).max
+        return np.array(v, dtype=f) if all(lo <= int(x) <= hi for x in v) else np.array(v, dtype='int64')
     return tuple(v)
+
+
+INT_ARGFORMS = ('uint8', 'uint16', 'uint32', 'uint64', 'int8', 'int16')
+
+
+def shift_arg(c, sh):
+    """the shift of a drawing call: a tuple of floats, or (argument form = integer dtype, whole-number shift) an
+    ndarray of that dtype"""
+    if c.get('argform') in INT_ARGFORMS and all(float(v).is_integer() for v in sh):
+        return seq_arg(c, [int(v) for v in sh])
+    return sh
 
 
 def unchanged(x, c):
@@ -440,10 +455,21 @@ def gen_shapes(rng, n, maxn):
         base = {'shape': shape, 'shift': rnd_shift(rng), 'aa': rng.random() < 0.5,
                 'd': [rng.randint(-3, 3), rng.randint(-3, 3)]}
         t = rng.random()
+        # near-ties: an edge a hair (2**-47 .. 2**-40: the radius AND radius + 0.5 stay exact in binary64 below 16)
+        # outside / inside sample centres
+        eps = Fraction(rng.choice([1, -1]), 2 ** rng.choice([47, 45, 43, 40])) if rng.random() < 0.2 else 0
         if t < 0.33:
-            yield dict(base, op='circle', radius=dy(rng, 0, 10))
+            r = Fraction(dy(rng, 0, 10))
+            if eps:
+                r = Fraction(2 * rng.randint(0, 9) + 1, 2) + eps
+                base['shift'] = [str(rng.randint(-2, 2)), str(rng.randint(-2, 2))]
+            yield dict(base, op='circle', radius=str(r))
         elif t < 0.66:
-            yield dict(base, op='rect', width=dy(rng, 0, 12), height=dy(rng, 0, 12), angle=rng.choice(ANGLES))
+            w, h = Fraction(dy(rng, 0, 12)), Fraction(dy(rng, 0, 12))
+            if eps:
+                w, h = 2 * rng.randint(0, 5) + 1 + 2 * eps, 2 * rng.randint(0, 5) + 1 - 2 * eps
+                base['shift'] = [str(rng.randint(-2, 2)), str(rng.randint(-2, 2))]
+            yield dict(base, op='rect', width=str(w), height=str(h), angle='0' if eps else rng.choice(ANGLES))
         else:
             yield dict(base, op='hexagon', radius=dy(rng, 0, 10), rotate=rng.random() < 0.5)
 
@@ -750,6 +776,34 @@ def gen_deepen(rng, n):
         yield dict(c, flatten=True)
 
 
+def gen_int_args(rng, n):
+    """shape / shift arguments handed over as ndarrays of small-width or unsigned integer dtypes: no arithmetic on
+    them may wrap (uint64 only where the unchanged library accepts it: slice_offset, mesh and the drawings)"""
+    for k in range(n):
+        dt = INT_ARGFORMS[k % len(INT_ARGFORMS)]
+        u = (k // len(INT_ARGFORMS)) % 7
+        n_, m_ = rng.randint(1, 7), rng.randint(1, 7)
+        if u == 0 or (dt == 'uint64' and u in (1, 2, 3)):
+            r0, r1 = sorted((rng.randint(0, n_), rng.randint(0, n_)))
+            c0, c1 = sorted((rng.randint(0, m_), rng.randint(0, m_)))
+            yield {'op': 'soff', 'slice': [r0, r1, c0, c1], 'shape': [n_, m_], 'argform': dt}
+        elif u == 1:
+            yield {'op': 'pad', 'a': rnd_arr(rng, n_, m_), 'shape': [rng.randint(1, 9), rng.randint(1, 9)], 'argform': dt}
+        elif u == 2:
+            yield {'op': 'subarray', 'a': rnd_arr(rng, n_, m_), 'shape': [rng.randint(1, n_), rng.randint(1, m_)],
+                   'shift': [0, 0] if dt.startswith('u') else [rng.randint(-1, 1), 0], 'argform': dt}
+        elif u == 3:
+            yield {'op': 'window', 'a': rnd_arr(rng, n_ + 1, m_), 'shape': [rng.randint(1, 8), rng.randint(1, 8)],
+                   'slice': None, 'argform': dt}
+        elif u == 4:
+            yield {'op': 'mesh', 'shape': [n_ + 2, m_ + 2], 'shift': ['0', '0'], 'angle': rng.choice(['0', '30', '90']),
+                   'd': [rng.randint(-2, 2), rng.randint(-2, 2)], 'argform': dt}
+        else:
+            for c in gen_shapes(rng, 1, 12):
+                c['shift'] = [str(rng.randint(0, 3)), str(rng.randint(0, 3))]
+                yield dict(c, argform=dt)
+
+
 def cube_of(d, n, m, base=1):
     return [[[base + (k * n + i) * m + j for j in range(m)] for i in range(n)] for k in range(d)]
 
@@ -797,6 +851,7 @@ def generate(rng, tier):
         yield from gen_containers(rng, 200)
         yield from gen_flags(rng, 36)
         yield from gen_deepen(rng, 120)
+        yield from gen_int_args(rng, 126)
         yield from gen_shapes(rng, 150, 16)
         yield from gen_histories(rng, 40, 20)
         yield from gen_hexseg(rng, 14, 3)
@@ -809,6 +864,7 @@ def generate(rng, tier):
         yield from gen_containers(rng, 2000)
         yield from gen_flags(rng, 300)
         yield from gen_deepen(rng, 1200)
+        yield from gen_int_args(rng, 1260)
         yield from gen_window_cubes_exhaustive()
         yield from gen_shapes(rng, 900, 24)
         yield from gen_histories(rng, 300, 24)
@@ -1023,7 +1079,7 @@ def run_impl(c):
                     'mutated': not unchanged(x, c)}
         if op == 'soff':
             s = c['slice']
-            off = lentil.helper.slice_offset((slice(s[0], s[1]), slice(s[2], s[3])), tuple(c['shape']))
+            off = lentil.helper.slice_offset((slice(s[0], s[1]), slice(s[2], s[3])), seq_arg(c, c['shape']))
             return {'offset': [int(off[0]), int(off[1])]}
         if op == 'soff_ell':
             off = lentil.helper.slice_offset(Ellipsis, tuple(c['shape']))
@@ -1185,11 +1241,13 @@ class Blob:
 def draw(lentil, c, sh):
     op = c['op']
     if op == 'circle':
-        return lentil.circle(tuple(c['shape']), float(Fraction(c['radius'])), shift=sh, antialias=flag(c, c['aa']))
+        return lentil.circle(seq_arg(c, c['shape']), float(Fraction(c['radius'])), shift=shift_arg(c, sh),
+                             antialias=flag(c, c['aa']))
     if op == 'rect':
-        return lentil.rectangle(tuple(c['shape']), float(Fraction(c['width'])), float(Fraction(c['height'])),
-                                shift=sh, angle=float(Fraction(c['angle'])), antialias=flag(c, c['aa']))
-    return lentil.hexagon(tuple(c['shape']), float(Fraction(c['radius'])), shift=sh, rotate=flag(c, c['rotate']),
+        return lentil.rectangle(seq_arg(c, c['shape']), float(Fraction(c['width'])), float(Fraction(c['height'])),
+                                shift=shift_arg(c, sh), angle=float(Fraction(c['angle'])), antialias=flag(c, c['aa']))
+    return lentil.hexagon(seq_arg(c, c['shape']), float(Fraction(c['radius'])), shift=shift_arg(c, sh),
+                          rotate=flag(c, c['rotate']),
                           antialias=flag(c, c['aa']))
 
 
